@@ -236,6 +236,13 @@ def model_step(op, L, Dd, V=None):
         L.append(copy.deepcopy(V))
         V[0].append(D(7))
         exp = copy.deepcopy(L[-1])
+    elif name == 'sortd':
+        src = 'd = sorted(d)'
+        items = sorted(Dd.items())
+        Dd.clear()
+        Dd.update(items)
+    elif name == 'copyd':
+        src = 'd = dict(d)'
     elif name == 'dictlit':
         k, v = op[1], op[2]
         src = f'd = {{{lit(k)}: {lit(v)}, "zz": 0}}'
@@ -314,7 +321,7 @@ ALPHABET = (
      ('readd', 'a'), ('readd', D(1)), ('readd', '1'), ('readd', D('1.0')), ('readd', True), ('readd', 'None'),
      ('deld', 'a'), ('deld', D(1)), ('deld', D('1.0')), ('get', D(1)), ('getd', 'zz', D(2)), ('get', True),
      ('keys',), ('values',), ('items',), ('lend',), ('cwrited', 'a'), ('cwrited', D(1)), ('ind', 'a'), ('ind', '1'),
-     ('removed', '1'), ('dictlit', D(1), D(5)), ('dictlit', D('1.0'), D(6)), ('nestw', 'n'), ('nestl',)]
+     ('removed', '1'), ('dictlit', D(1), D(5)), ('dictlit', D('1.0'), D(6)), ('nestw', 'n'), ('nestl',), ('sortd',), ('copyd',)]
 )
 INITS = [([], {}), ([D(1), 'x'], {'a': D(1), '1': D(2)})]
 
@@ -496,6 +503,14 @@ class ContainerMachine(RuleBasedStateMachine):
     @rule()
     def nestl(self):
         self.step(('nestl',))
+
+    @rule()
+    def sortd(self):
+        self.step(('sortd',))
+
+    @rule()
+    def copyd(self):
+        self.step(('copyd',))
 
     @rule(k=hst.sampled_from(KEYS), v=hst.sampled_from(SVALS))
     def dictlit(self, k, v):
